@@ -1,121 +1,80 @@
-#!/usr/bin/env python
 """
-C20 / clause "Session data stored under a session id is only returned to
-requests presenting that id from the same client fingerprint (all others get
-a fresh, unique id)" - "every pair of requests differing in cookie, address
-or user agent".
+C20 / gateway trust: with NO trusted gateway configured, X-Forwarded-Host of every client
+decides the virtual host.
 
-sessions.who() hashes the plain concatenation f'{ip}{agent}', so the boundary
-between address and User-Agent is lost: ('127.0.0.1', '1Mozilla') and
-('127.0.0.11', 'Mozilla') - different address AND different user agent - have
-the same fingerprint.  A client on the second address that presents the first
-client's cookie gets the first client's session data instead of a fresh id.
+VirtualHosts(domains) - the form used by examples/web/virtualhosts.py and docs/source/web/features.rst -
+leaves trusted_gateways at its default None, and the request handler reads None as "trust everybody"
+(`if self.trusted_gateways is None or request.remote.ip in self.trusted_gateways`).  The set of
+configured trusted gateways is empty, yet the header influences the routing of any request.
+(An explicitly empty list, trusted_gateways=[], behaves correctly.)
 """
-import re
 import socket
 import sys
 import time
 
-from circuits.web import Controller, Server, Sessions
-from circuits.web.headers import Headers
-from circuits.web.sessions import who
-from circuits.web.wrappers import Request
+from circuits.web import Controller, Server, VirtualHosts
 
 
 class Root(Controller):
-    def index(self, v=None):
-        if v:
-            with self.session as data:
-                data['v'] = v
-        return 'remote=%s session=%r' % (self.request.remote.ip, dict(self.session))
+    def index(self):
+        return 'PUBLIC'
 
 
-class Peer:
-    def __init__(self, addr):
-        self.addr = addr
+class Secret(Controller):
+    channel = '/secret'
 
-    def getpeername(self):
-        return self.addr
-
-
-bad = []
-
-# ---- 1. the fingerprint function -------------------------------------------
-pairs = [
-    (('127.0.0.1', '1Mozilla'), ('127.0.0.11', 'Mozilla')),
-    (('10.0.0.2', '5 curl/8.0'), ('10.0.0.25', ' curl/8.0')),
-    (('192.168.1.1', '00'), ('192.168.1.100', '')),
-]
-print('--- sessions.who()')
-for (ip1, ua1), (ip2, ua2) in pairs:
-    r1 = Request(Peer((ip1, 1111)), headers=Headers([('Host', 'x'), ('User-Agent', ua1)]))
-    r2 = Request(Peer((ip2, 2222)), headers=Headers([('Host', 'x'), ('User-Agent', ua2)]))
-    same = who(r1) == who(r2)
-    print('who(%s, %r) == who(%s, %r): %s' % (ip1, ua1, ip2, ua2, same))
-    if same:
-        bad.append('fingerprint of (%s, %r) equals fingerprint of (%s, %r)' % (ip1, ua1, ip2, ua2))
-
-# ---- 2. end to end on loopback: two different source addresses -------------
-app = Server(('127.0.0.1', 0))
-Sessions().register(app)
-Root().register(app)
-app._running = True
-for _ in range(20):
-    app.tick(0)
+    def index(self):
+        return 'INTERNAL-ONLY'
 
 
-def exchange(src, agent, cookie=None, path='/'):
-    s = socket.socket()
-    s.bind((src, 0))
-    s.connect(('127.0.0.1', app.port))
-    h = 'GET %s HTTP/1.1\r\nHost: x\r\nConnection: close\r\nUser-Agent: %s\r\n' % (path, agent)
-    if cookie:
-        h += 'Cookie: %s\r\n' % cookie
-    s.sendall((h + '\r\n').encode())
-    s.setblocking(False)
-    data = b''
-    deadline = time.time() + 3
-    while time.time() < deadline:
+def serve(**kwargs):
+    app = Server(('127.0.0.1', 0), display_banner=False)
+    VirtualHosts({'internal.example': 'secret'}, **kwargs).register(app)
+    Root().register(app)
+    Secret().register(app)
+    app._running = True
+    for _ in range(20):
         app.tick(0.01)
+    return app, app.server._sock.getsockname()[1]
+
+
+def get(app, port, headers):
+    c = socket.socket()
+    c.connect(('127.0.0.1', port))
+    c.setblocking(False)
+    c.sendall(('GET / HTTP/1.1\r\n' + ''.join('%s: %s\r\n' % h for h in headers) + 'Connection: close\r\n\r\n').encode())
+    buf = b''
+    end = time.time() + 3
+    while time.time() < end:
+        app.tick(0.005)
         try:
-            d = s.recv(65536)
+            d = c.recv(65536)
+            if not d:
+                break
+            buf += d
         except BlockingIOError:
-            continue
-        except OSError:
-            break
-        if not d:
-            break
-        data += d
-    s.close()
-    text = data.decode('latin1')
-    m = re.search(r'Set-Cookie: (circuits=[^;\r]*)', text)
-    return text.split('\r\n\r\n', 1)[-1], (m.group(1) if m else None)
+            pass
+    c.close()
+    return buf.decode('latin-1').split('\r\n\r\n', 1)[-1]
 
 
-print('--- Sessions component on loopback')
-try:
-    body, cookie_a = exchange('127.0.0.1', '1Mozilla', None, '/?v=private-data-of-A')
-    print('A  (127.0.0.1,  UA 1Mozilla) stores data      ->', body, '| cookie', cookie_a)
-    body_b, cookie_b = exchange('127.0.0.11', 'Mozilla', cookie_a)
-    print("B  (127.0.0.11, UA Mozilla)  presents A's id  ->", body_b, '| cookie', cookie_b)
-    body_c, cookie_c = exchange('127.0.0.2', '1Mozilla', cookie_a)
-    print("C  (127.0.0.2,  UA 1Mozilla) presents A's id  ->", body_c, '| cookie', cookie_c, '(control: fresh id expected)')
-    if 'private-data-of-A' in body_b or cookie_b == cookie_a:
-        bad.append("request from 127.0.0.11 / 'Mozilla' was given the session of 127.0.0.1 / '1Mozilla' (same id kept: %s)" % (cookie_b == cookie_a))
-    if 'private-data-of-A' in body_c:
-        bad.append('control request C got the data too')
-except OSError as e:   # e.g. no 127.0.0.11 on this platform
-    print('loopback part skipped:', e)
+HEADERS = [('Host', 'public.example'), ('X-Forwarded-Host', 'internal.example')]
 
-app.stop()
-for _ in range(10):
-    app.tick(0)
+results = {}
+for label, kwargs in (('trusted_gateways not given', {}),
+                      ('trusted_gateways=None', {'trusted_gateways': None}),
+                      ('trusted_gateways=[]', {'trusted_gateways': []}),
+                      ("trusted_gateways=['10.0.0.1']", {'trusted_gateways': ['10.0.0.1']})):
+    app, port = serve(**kwargs)
+    plain = get(app, port, HEADERS[:1])
+    fwd = get(app, port, HEADERS)
+    results[label] = fwd
+    print('%-32s Host only -> %-8s  + X-Forwarded-Host from 127.0.0.1 -> %s' % (label, plain, fwd))
 
+bad = [k for k, v in results.items() if v != 'PUBLIC']
 if bad:
-    print()
-    print('VIOLATION: requests differing in address and user agent share a session:')
-    for b in bad:
-        print('  -', b)
+    print('VIOLATION (C20): 127.0.0.1 is not a configured trusted gateway, but its X-Forwarded-Host '
+          'selected the virtual host for: %s' % ', '.join(bad))
     sys.exit(1)
-print('OK: different (address, user agent) pairs never share a session')
+print('OK: X-Forwarded-Host is ignored unless the peer is a configured trusted gateway')
 sys.exit(0)
